@@ -37,10 +37,10 @@ Proof. vm_compute. reflexivity. Qed.
 Example ex_plan :
   let pl := relocationPlan [1%nat] [[2%nat]; []] ex_actors ex_grains [2; 0; 0] in
   map fst (pl_peers pl) = [0%nat; 1%nat] /\
-  map gid (pl_leaderGrains pl) = [1; 3; 4]%nat /\
-  map (fun pr => map gid (peer_grains pr)) (pl_peers pl) = [[5]; [6]]%nat /\
-  map (fun pr => map aid (peer_actors pr)) (pl_peers pl) = [[1; 3]; [6; 8]]%nat /\
-  map aid (pl_leaderActors pl) = [4; 7; 2]%nat /\ map aid (pl_unplaceable pl) = [5]%nat.
+  map gid (pl_leaderGrains pl) = [1; 3; 4]%N /\
+  map (fun pr => map gid (peer_grains pr)) (pl_peers pl) = [[5]; [6]]%N /\
+  map (fun pr => map aid (peer_actors pr)) (pl_peers pl) = [[1; 3]; [6; 8]]%N /\
+  map aid (pl_leaderActors pl) = [4; 7; 2]%N /\ map aid (pl_unplaceable pl) = [5]%N.
 Proof. vm_compute. repeat split; reflexivity. Qed.
 
 Example ex_reassign :
